@@ -234,11 +234,40 @@ def run_case(case: dict, driver):
             del log[:]
             world.take()
             err = None
+            race = op[2] if len(op) > 2 else None
+            pre: list[F] = []
+            restore = None
+            if race is not None and race["user"] in collectors:
+                # a collector on the inference thread lands one sample just before this decision moves
+                # the queue (the racing window of is_trainable): sequentially, from inside update()
+                du_r = users[race["user"]]
+                orig_update = du_r.update
+                fired = [False]
+
+                def racing_update(_du=du_r, _orig=orig_update, _race=race):
+                    nonlocal sample
+                    if not fired[0]:
+                        fired[0] = True
+                        pre.extend(world.take())            # clock readings the decision made so far
+                        world.std.now += F(_race["adv"])
+                        sample += 1
+                        collectors[_race["user"]].collect(sample)
+                        rdc = world.take() or [F(world.ctl.time())]
+                        lines.append(f"trainer collect {_race['user']} {sample} t={show_frac(rdc[0])}")
+                        impl.append("ok")
+                        spec_users[_race["user"]]["pending"].append(rdc[0])
+                        world.std.now += F(_race["adv"])
+                    return _orig()
+                du_r.update = racing_update
+                restore = (du_r, orig_update)
             try:
                 thread.on_tick()
             except KeyError:
                 err = "err KeyError"
-            rd = world.take()
+            finally:
+                if restore is not None:
+                    del restore[0].update            # back to the class's method
+            rd = pre + world.take()
             now = rd[0] if rd else F(0)
             lines.append(f"trainer tick now={show_frac(now)}")
             runs = [x for x in log if x[1] == "run"]
@@ -276,11 +305,20 @@ def run_case(case: dict, driver):
                                 f"tick #{ticks}: trainer {st['name']} "
                                 f"{'ran' if ran else 'did not run'} but its data condition "
                                 f"{'holds' if should else 'does not hold'}{why}")
+                    if ran and st["cond"] is not None and st.get("seen") is not None and \
+                            su["total"] - st["seen"] < st["min_new"]:
+                        # counted by delivery instead of by timestamp: every sample whose timestamp is
+                        # later than the marker of the previous run was delivered after that run
+                        violate("trainer:ran-on-old-data",
+                                f"tick #{ticks}: trainer {st['name']} ran although only "
+                                f"{su['total'] - st['seen']} sample(s) reached the buffer since its previous run "
+                                f"(min_new_data_count {st['min_new']}): samples of the previous run were counted again")
                     if ran:
                         if calls != ["setup", "train", "sync_models", "teardown"]:
                             violate("trainer:run-order", f"tick #{ticks}: run executed {calls}")
                         if st["cond"] is not None:
                             st["prev"] = now if rd else F(world.ctl.time())
+                            st["seen"] = su["total"]
                     elif calls:
                         violate("trainer:calls-without-run", f"tick #{ticks}: refused but executed {calls}")
                     ticks += 1
@@ -344,7 +382,11 @@ def gen_case(rng) -> dict:
         if r < 0.5:
             ops.append(["collect", gap, f"u{rng.randrange(nu)}"])
         elif r < 0.80:
-            ops.append(["tick", gap])
+            if rng.random() < 0.25:
+                # a sample collected while the decision is being taken (just before the queue is moved)
+                ops.append(["tick", gap, {"user": f"u{rng.randrange(nu)}", "adv": rng.choice(["1/4", "1", "0"])}])
+            else:
+                ops.append(["tick", gap])
         elif r < 0.85:
             ops.append(["thread_pause_resume", gap])
         elif r < 0.92:
